@@ -596,7 +596,7 @@ func isSchemaTag(m *meta2.MeasurementInfo, key string) bool {
 }
 
 // evalCond: does the stored row DEFINITELY satisfy the written condition under InfluxQL semantics (a tag the row does
-// not carry compares as ''; a comparison on a field the row does not carry, on a key unknown to the schema, or a regex
+// not carry compares as ”; a comparison on a field the row does not carry, on a key unknown to the schema, or a regex
 // on an absent tag counts as false - the tree has no negation above atoms, so this can only shrink the match set).
 func evalCond(e influxql.Expr, r *storedRow, m *meta2.MeasurementInfo) (bool, error) {
 	if e == nil {
